@@ -338,6 +338,12 @@ def run_case(case, rec):
         else:
             fj = lambda x: A + x @ Bm.T
         fnp = lambda z: al + be @ z
+        if cond != "dirichlet" and case["seed"] % 3 == 0:
+            # the usual way of writing a homogeneous / constant flux: a Python scalar
+            c0 = float(al[0])
+            fj = (lambda t, x: c0) if nonst else (lambda x: c0)
+            fnp = lambda z: np.array([c0])
+            rec.count("neumann_scalar_valued_f")
         spec = dict(omega_boundary_fun={n: fj for n in names},
                     omega_boundary_condition={n: (cond if i == f else None) for i, n in enumerate(names)},
                     omega_boundary_dim={n: jnp.s_[sel[0]:sel[1]] for n in names},
